@@ -1,4 +1,5 @@
-\* t_layout: see checks/ringlookup_common.py (UNIVERSES) for what this universe is for
+\* t_layout: token layouts: <=3 instances x <=2 tokens on 5 positions (0,1,2 | gap | 2^32-2,2^32-1), 1 tokenless, zones 0..2, ACTIVE/JOINING
+\* (generated from UNIVERSES in checks/ringlookup_common.py: python3 checks/ringlookup_common.py --write-cfgs)
 CONSTANTS
   NK = 6
   Gaps = {3}
@@ -8,13 +9,16 @@ CONSTANTS
   Z = 2
   StateSet = {"ACTIVE", "JOINING"}
   HbSet = {"edge"}
-  RFMax = 3
+  RFMax = 5
   Canon = 2
   WithRemove = FALSE
+  Excl = {}
   EmitOn = TRUE
+  EmitSets = FALSE
+  XMax = 0
 INIT Init
 NEXT Next
 VIEW View
-INVARIANTS TypeOK SizeOK ZoneOK ClockwiseFirst SlackExact WalkDefsAgree QuorumIntersection Emit
+INVARIANTS TypeOK SizeOK ZoneOK ClockwiseFirst SlackExact WalkDefsAgree QuorumIntersection ExpandedOK Emit
 PROPERTIES MinimalDisruption
 CHECK_DEADLOCK FALSE
